@@ -39,14 +39,14 @@ impl GasInfo {
         self
     }
 
-    /// Asserts that all non-branch align values in `self.variable_values` are equal to the values
-    /// in `other.variable_values`. Panics otherwise, printing the differences.
+    /// Returns the differences between the non-branch align values in `self.variable_values` and the
+    /// values in `other.variable_values`.
     /// We allow branch align values to be different, as they do not affect generated code directly.
-    pub fn assert_eq_variables(&self, other: &GasInfo, program: &Program) {
+    pub fn variables_diff(&self, other: &GasInfo, program: &Program) -> Vec<String> {
         let branch_align_id: Option<_> = program.libfunc_declarations.iter().find_map(|fd| {
             (fd.long_id.generic_id.0 == BranchAlignLibfunc::STR_ID).then_some(&fd.id)
         });
-        let mut fail = false;
+        let mut diffs = vec![];
         for ((idx, token), val) in self
             .variable_values
             .clone()
@@ -59,21 +59,29 @@ impl GasInfo {
                     if Some(&x.libfunc_id) == branch_align_id
                 )
             {
-                println!(
+                diffs.push(format!(
                     "Difference in ({idx:?}, {token:?}): {:?} != {:?}.",
                     self.variable_values.get(&(idx, token)),
                     other.variable_values.get(&(idx, token))
-                );
-                fail = true;
+                ));
             }
         }
-        assert!(!fail, "Comparison failed.");
+        diffs
     }
 
-    /// Asserts that all the cost of functions in `self` are equal to the costs in `other`.
-    /// Panics otherwise, printing the differences.
-    pub fn assert_eq_functions(&self, other: &GasInfo) {
-        let mut fail = false;
+    /// Asserts that all non-branch align values in `self.variable_values` are equal to the values
+    /// in `other.variable_values`. Panics otherwise, printing the differences.
+    pub fn assert_eq_variables(&self, other: &GasInfo, program: &Program) {
+        let diffs = self.variables_diff(other, program);
+        for diff in &diffs {
+            println!("{diff}");
+        }
+        assert!(diffs.is_empty(), "Comparison failed.");
+    }
+
+    /// Returns the differences between the costs of functions in `self` and the costs in `other`.
+    pub fn functions_diff(&self, other: &GasInfo) -> Vec<String> {
+        let mut diffs = vec![];
         for key in chain!(self.function_costs.keys(), other.function_costs.keys()) {
             let self_val = self.function_costs.get(key);
             let other_val = other.function_costs.get(key);
@@ -87,11 +95,20 @@ impl GasInfo {
                 _ => false,
             };
             if !is_same {
-                println!("Difference in {key:?}: {self_val:?} != {other_val:?}.");
-                fail = true;
+                diffs.push(format!("Difference in {key:?}: {self_val:?} != {other_val:?}."));
             }
         }
-        assert!(!fail, "Comparison failed.");
+        diffs
+    }
+
+    /// Asserts that all the cost of functions in `self` are equal to the costs in `other`.
+    /// Panics otherwise, printing the differences.
+    pub fn assert_eq_functions(&self, other: &GasInfo) {
+        let diffs = self.functions_diff(other);
+        for diff in &diffs {
+            println!("{diff}");
+        }
+        assert!(diffs.is_empty(), "Comparison failed.");
     }
 }
 
